@@ -168,11 +168,13 @@ func Refresh(data map[string]string) error {
 		}
 	}
 
-	// Start all appenders
+	// Start all appenders. What has been started is recorded at once, so that
+	// Destroy stops it even if a later step of this Refresh fails.
 	for _, a := range cAppenders {
 		if err := a.Start(); err != nil {
 			return errutil.Stack(err, "appender %s start error", a.GetName())
 		}
+		global.appenders = append(global.appenders, a)
 	}
 
 	// Start all loggers
@@ -180,6 +182,7 @@ func Refresh(data map[string]string) error {
 		if err := l.Start(); err != nil {
 			return errutil.Stack(err, "logger %s start error", l.GetName())
 		}
+		global.loggers = append(global.loggers, l)
 	}
 
 	// Update logger references in `loggerMap`
@@ -218,14 +221,6 @@ func Refresh(data map[string]string) error {
 		} else if err = f(v); err != nil {
 			return errutil.Stack(err, "inject property %s error", k)
 		}
-	}
-
-	// Update global loggers and appenders
-	for _, l := range cLoggers {
-		global.loggers = append(global.loggers, l)
-	}
-	for _, a := range cAppenders {
-		global.appenders = append(global.appenders, a)
 	}
 
 	return nil
